@@ -1,12 +1,17 @@
 """Property -> rules map and claim texts."""
 from . import rules_tables as T
 from . import rules_numeric as N
+from . import rules_cg as G
 
 RULES = {
     "T1": T.rule_T1,
     "T2": T.rule_T2,
     "T3": T.rule_T3,
     "T6": T.rule_T6,
+    "G1c": G.rule_G1c,
+    "G1r": G.rule_G1r,
+    "G2c": G.rule_G2c,
+    "G2r": G.rule_G2r,
     "N1": N.rule_N1,
     "N2": N.rule_N2,
     "N3": N.rule_N3,
@@ -26,6 +31,21 @@ PROPS = {
         "definitions, induces exactly the ordered tiers of spec/precedence.json (compared as an ordered partition, never "
         "by number) and the associativity classes are as specified.",
     },
+    "C03": {
+        "rules": ["G2c", "G1c"],
+        "claim": "Decides the no-panic and no-recursion clauses of C03 over everything reachable from lex / Lexer::next / parse / build "
+        "(including the data-impl methods build calls, closed over trait dispatch into both shipped impls): every panic-capable site "
+        "(explicit panic/unwrap/unreachable, MIR bounds/overflow/div asserts, Index impls, enumerated std panickers, generic Size "
+        "subtraction) is either absent or in the reviewed allow-list with the reason it cannot fire, and the reachable call graph is "
+        "acyclic. Termination and running time are not decided (`5 ;; 6` makes parse return a cyclic tree on which build does not terminate).",
+    },
+    "C07": {
+        "rules": ["G2r", "G1r"],
+        "claim": "Decides the no-panic clause of C07 over everything reachable from execute_current_instruction and the 55 instruction "
+        "functions (runtime, traits helpers, both data impls, SimpleNumber): every panic-capable site is in the reviewed allow-list "
+        "with the reason it cannot fire, and every recursive cycle is allow-listed with its depth bound or reported. Value "
+        "reachability of an allow-listed site is by review, stated per site in allow/panic_sites.json.",
+    },
     "C09": {
         "rules": ["N1", "N2", "N3"],
         "claim": "Decides the no-wrap/no-trap/finiteness clauses of C09 on the code of impl GarnishNumber for SimpleNumber and its helpers: "
@@ -44,6 +64,8 @@ PROPS = {
 TECHNIQUE = {
     "C01": "dispatch-table extraction from resolved HIR (5 composed tables vs a semantic operator spec), exhaustiveness of dispatch matches",
     "C02": "priority-map extraction from HIR compared as an ordered partition against the operator table; associativity classes",
+    "C03": "resolved whole-workspace call graph (trait dispatch into both data impls) + MIR panic-site inventory (asserts, Index impls, unwrap/panic macros, std panickers) against a reviewed per-function allow-list; SCC check for recursion",
+    "C07": "same call-graph reachability + MIR panic-site inventory over the runtime entry set; SCC check with a depth-bound allow-list",
     "C09": "MIR scan of the number implementation: raw integer BinaryOp/overflow asserts, unchecked std integer calls, overflow-flag dataflow to a branch, FloatToInt casts, dominator check of finiteness tests over Float constructions",
     "C12": "constant/predicate wiring check on the four comparison functions; comparable type-pair arm table",
 }
